@@ -3,9 +3,15 @@
     and every transfer-module callback: sum of balances = supply <= 2^64-1, every
     ledger operation either fails cleanly or moves exactly the stated amount, no
     subtraction wraps and no addition overflows; exact refunds (C06).
+    OVER HISTORIES: see C05Hist.v (every history of one chain: escrow and
+    voucher-supply accounting, exact and within uint64 at every prefix),
+    C05HistNet.v / C05HistSum.v (the application network refines the generic
+    network; per key: credit at most once, only for sent data, excluded by a
+    refund), C05HistTotal.v (units credited on j + units refunded on i <= units
+    sent by i to j, for every history) and, when present, C05HistCross.v (the
+    two-chain equation).
     NOT PROVED (checked by the correspondence oracles on every explored history):
-    the cross-chain equalities "escrow on X = vouchers further along + in flight"
-    and "user-held over all chains + in flight = minted natively". *)
+    the equalities over routes of three and more chains and through relays. *)
 From Tibc Require Import Base.Bytes Base.FMap Packet.Types Packet.Keeper
   Apps.Path Apps.Nft Apps.Mt Apps.MtFacts Apps.App Apps.AppFacts.
 
